@@ -5071,6 +5071,7 @@ class Entity(object, metaclass=EntityMeta):
                         if not reverse.is_collection:
                             val = get_val(attr) if attr in obj._vals_ else attr.load(obj)
                             if val is None: continue
+                            if val._vals_.get(reverse, obj) is not obj: continue  # val is already linked to a replacement
                             if attr.cascade_delete: val._delete_(undo_funcs)
                             elif not reverse.is_required: reverse.__set__(val, None, undo_funcs)
                             else: throw(ConstraintError, "Cannot delete object %s, because it has associated %s, "
